@@ -315,6 +315,26 @@ def r4_length(ctx):
                 body = any(body_part(p) for p in parts)
                 hdr = any(any(x[0] == 'call' and x[1].endswith('MessageBody>::byte_len') and any(y[0] == 'field' and y[2] == 'header' for y in walk(x)) for x in walk(p)) for p in parts)
                 ok = body and hdr
+        if not ok:
+            # distributed form:  content.map_or(H, |body| body.length() + H)  with H = header.byte_len()
+            P = ctx.P
+            def is_hdr(p):
+                return any(x[0] == 'call' and x[1].endswith('MessageBody>::byte_len') and any(y[0] == 'field' and y[2] == 'header' for y in walk(x)) for x in walk(p))
+            for b, t in ret_trees(f):
+                q = peel(t)
+                if q[0] == 'call' and q[1].endswith('Option::map_or') and len(q[2]) == 3 and any(y[0] == 'field' and y[2] == 'content' for y in walk(q[2][0])) and is_hdr(q[2][1]):
+                    cl = peel(q[2][2])
+                    g = P.fns.get(cl[1][len('closure:'):]) if cl[0] == 'agg' and str(cl[1]).startswith('closure:') else None
+                    good = g is not None
+                    for _, r in (ret_trees(g) if g else []):
+                        r = resolve_captures(P, g, r)
+                        r = r[1] if (r[0] == 'field' and r[1][0] == 'bin') else r
+                        if not (r[0] == 'bin' and r[1].startswith('Add')):
+                            good = False; continue
+                        parts = (r[2], r[3])
+                        blen = [p_ for p_ in parts if peel(p_)[0] == 'call' and peel(p_)[1] == BODY + '::length' and any(y[0] == 'arg' and y[1] == 2 for y in walk(p_))]
+                        good = good and len(blen) == 1 and any(is_hdr(p_) for p_ in parts if p_ is not blen[0])
+                    ok = good
         ctx.check(ok, 'message-length', 'Message::length = declared body length (0 without body) + Header::byte_len()', f.where())
     h = ctx.anchor('<des::net::message::header::Header as des::net::message::body::MessageBody>::byte_len')
     if h:
